@@ -20,19 +20,19 @@ variable (cfg : Cfg)
 /-- A declared integrity that the computed one does not satisfy ⇒ integrity error (checked before
 the size). -/
 theorem checks_reject_integrity (w : Writer) (wsri s : Integrity) (hs : w.opts.sri = some s)
-    (hm : Sri.matchesSri s wsri = none) : commitChecks w wsri = .error .integrity := by
+    (hm : Sri.declaredOk s wsri = none) : commitChecks w wsri = .error .integrity := by
   simp [commitChecks, hs, hm]
 
 /-- Declared size ≠ bytes accepted (and no integrity objection) ⇒ size-mismatch error carrying
 exactly (wanted, actual). -/
 theorem checks_reject_size (w : Writer) (wsri : Integrity) (n : Nat) (hn : w.opts.size = some n)
     (hne : n ≠ w.written)
-    (hi : w.opts.sri = none ∨ ∃ s, w.opts.sri = some s ∧ (Sri.matchesSri s wsri).isSome) :
+    (hi : w.opts.sri = none ∨ ∃ s, w.opts.sri = some s ∧ (Sri.declaredOk s wsri).isSome) :
     commitChecks w wsri = .error (.size n w.written) := by
   rcases hi with h | ⟨s, h, hm⟩
   · simp [commitChecks, commitChecks.sizeCheck, h, hn, hne]
-  · have : (Sri.matchesSri s wsri).isNone = false := by
-      cases hx : Sri.matchesSri s wsri <;> simp [hx] at hm ⊢
+  · have : (Sri.declaredOk s wsri).isNone = false := by
+      cases hx : Sri.declaredOk s wsri <;> simp [hx] at hm ⊢
     simp [commitChecks, commitChecks.sizeCheck, h, hn, hne, this]
 
 /-- Matching declarations ⇒ the commit goes through and records the *declared* integrity (the
@@ -40,14 +40,58 @@ computed one when none was declared). -/
 theorem checks_accept (w : Writer) (wsri : Integrity)
     (hsize : w.opts.size = none ∨ w.opts.size = some w.written) :
     (w.opts.sri = none → commitChecks w wsri = .ok wsri) ∧
-    (∀ s, w.opts.sri = some s → (Sri.matchesSri s wsri).isSome → commitChecks w wsri = .ok s) := by
+    (∀ s, w.opts.sri = some s → (Sri.declaredOk s wsri).isSome → commitChecks w wsri = .ok s) := by
   constructor
   · intro h
     rcases hsize with hz | hz <;> simp [commitChecks, commitChecks.sizeCheck, h, hz]
   · intro s h hm
-    have : (Sri.matchesSri s wsri).isNone = false := by
-      cases hx : Sri.matchesSri s wsri <;> simp [hx] at hm ⊢
+    have : (Sri.declaredOk s wsri).isNone = false := by
+      cases hx : Sri.declaredOk s wsri <;> simp [hx] at hm ⊢
     rcases hsize with hz | hz <;> simp [commitChecks, commitChecks.sizeCheck, h, hz, this]
+
+/-- **The strongest algorithm of a declaration governs** (F22): a declaration whose first — i.e.
+strongest — hash is of another algorithm than the one the writer hashed with is rejected, whatever
+weaker hashes it also lists (even a correct one of the writer's algorithm). -/
+theorem declaredOk_other_algorithm (d c : Hash) (ds cs : Integrity) (h : (d.algo == c.algo) = false) :
+    Sri.declaredOk (d :: ds) (c :: cs) = none := by
+  simp [Sri.declaredOk, h]
+
+/-- An accepted declaration has the writer's algorithm as its strongest one and lists the computed
+hash under it. -/
+theorem declaredOk_sound (s : Integrity) (c : Hash) (h : (Sri.declaredOk s [c]).isSome) :
+    (∃ d ds, s = d :: ds ∧ d.algo = c.algo) ∧ c ∈ s := by
+  unfold Sri.declaredOk at h
+  split at h
+  · rename_i d ds c' cs heq
+    cases heq
+    split at h
+    · rename_i ha
+      refine ⟨⟨d, ds, rfl, by simpa using ha⟩, ?_⟩
+      unfold Sri.matchesSri at h
+      simp only [Option.isSome_map] at h
+      obtain ⟨x, hx⟩ := Option.isSome_iff_exists.mp h
+      have hmem := List.mem_of_find?_eq_some hx
+      have hp := List.find?_some hx
+      simp only [List.filter_cons, beq_self_eq_true, if_true, List.filter_nil, List.any_cons,
+        List.any_nil, Bool.or_false, beq_iff_eq] at hp
+      subst hp
+      exact (List.mem_filter.mp hmem).1
+    · cases h
+  · cases h
+
+/-- **An accepted declaration with a single digest of its strongest algorithm resolves to the
+address the content was stored at**: its first hash *is* the computed one, so the content path of
+the recorded (declared) integrity is the content path of the computed one — the key is readable.
+(With several digests of that algorithm the recorded address is that of whichever sorts first:
+the known finding F24.) -/
+theorem accepted_resolves (cache : Path) (s : Integrity) (c : Hash)
+    (h : (Sri.declaredOk s [c]).isSome)
+    (h1 : ∀ x ∈ s, x.algo = c.algo → x = c) :
+    contentPath cache s = contentPath cache [c] := by
+  obtain ⟨⟨d, ds, rfl, hd⟩, _⟩ := declaredOk_sound s c h
+  have : d = c := h1 d List.mem_cons_self hd
+  subst this
+  rfl
 
 /-- The only errors the checks produce are the integrity and the size-mismatch error. -/
 theorem checks_errors (w : Writer) (wsri : Integrity) (e : Err) (h : commitChecks w wsri = .error e) :
